@@ -23,7 +23,8 @@ class Budget(Exception):
 
 
 SUBJECTS = [("child", "exit", 0), ("child", "exit", 1), ("child", "exit", 255), ("child", "sig", 1), ("child", "sig", 9),
-            ("child", "sig", 15), ("child", "sig", 64), ("other", None, None)]
+            ("child", "sig", 15), ("child", "sig", 64), ("child", "sig", 35), ("child", "sig", 63), ("child", "sig", 32),
+            ("other", None, None)]
 
 
 def wstatus(kind, v):
@@ -82,12 +83,15 @@ def run_wait(arg):
     n1 = len(trace)
     out2 = outcome(pr.wait, to)
     t_end2 = round(w.mono - t0, 9)
+    n2 = len(trace)
+    out3 = outcome(pr.wait, -1)           # an invalid timeout is refused whatever has been cached
     w.hook = None
     if out[0] == "ok":
         out = ("ok", int(out[1]) if out[1] is not None else None, type(out[1]).__name__)
     if out2[0] == "ok":
         out2 = ("ok", int(out2[1]) if out2[1] is not None else None, type(out2[1]).__name__)
-    return {"trace": trace[:n1], "out": out, "t_end": t_end, "out2": out2, "calls_in_second": len(trace) - n1, "t_end2": t_end2}
+    return {"trace": trace[:n1], "out": out, "t_end": t_end, "out2": out2, "calls_in_second": n2 - n1, "t_end2": t_end2,
+            "out3": (out3[0], out3[1] if out3[0] == "exc" else repr(out3[1])), "calls_in_third": len(trace) - n2}
 
 
 def judge_wait(arg, r):
@@ -101,6 +105,8 @@ def judge_wait(arg, r):
         if tr:
             bad.append(("invalid-timeout-touched-os", "wait(%r) made %d OS calls" % (timeout, len(tr))))
         return bad
+    if r.get("out3") and not (r["out3"][0] == "exc" and r["out3"][1] == "ValueError"):
+        bad.append(("negative-timeout-accepted-after-a-result-was-cached", "wait(-1) after wait(%r) -> %r" % (timeout, r["out3"])))
     sleeps = [s for t, k, s in tr if k == "sleep"]
     if timeout == 0 and sleeps:
         bad.append(("timeout0-sleeps", "wait(0) slept %r" % (sleeps,)))
@@ -190,7 +196,9 @@ def scenarios(seed, thorough):
 
 # ------------------------------------------------------------------ wait_procs
 def run_procs(arg):
-    seed, kinds, exits, timeout, use_cb, dup = arg
+    seed, kinds, exits, timeout, use_cb, dup = arg[:6]
+    recycle = arg[6] if len(arg) > 6 else False
+    pending = {}
     import psutil
     w = World(ncpus=1)
     w.spawn(1, ppid=0, comm=b"init", start=1)
@@ -210,11 +218,27 @@ def run_procs(arg):
         if kd == "child":
             w.at(t0 + e, lambda ww, pid=pid, i=i: ww.exit(pid, (i + 1) << 8))
         else:
-            w.at(t0 + e, lambda ww, pid=pid: ww.vanish(pid))
+            def gone(ww, pid=pid):
+                ww.vanish(pid)
+                if recycle == "after-probe":
+                    pending[pid] = "vanished"
+                elif recycle:
+                    # the pid is given to an unrelated process at once
+                    ww.jiffies += 3          # (start later than the old owner; virtual time itself does not move)
+                    ww.spawn(pid, ppid=1, comm=b"newcomer")
+            w.at(t0 + e, gone)
     count = [0]
 
     def hook(world, kind, subj, pid):
         count[0] += 1
+        # "after-probe": the pid is handed to a newcomer right after the first access that found it free
+        for q, stt in list(pending.items()):
+            if stt == "probed":
+                del pending[q]
+                world.jiffies += 3
+                world.spawn(q, ppid=1, comm=b"newcomer")
+            elif stt == "vanished" and pid == q and kind == "kill":     # the pid_exists() probe of wait()
+                pending[q] = "probed"
         if count[0] > BUDGET * 3:
             raise Budget()
     w.hook = hook
@@ -273,6 +297,10 @@ def proc_scenarios(seed, thorough):
                         out.append((seed, kinds, exits, to, cb, False))
                 if n == 2:
                     out.append((seed, kinds, exits, 0.3, True, True))
+                if "other" in kinds and n <= 2:
+                    out.append((seed, kinds, exits, 0.3, True, False, True))
+                    out.append((seed, kinds, exits, 0.3, True, False, "after-probe"))
+                    out.append((seed, kinds, exits, None, False, False, "after-probe"))
     return out
 
 
@@ -294,7 +322,7 @@ def run(ctx):
     for a, (bad, lab) in zip(ps, res2):
         labels["procs:" + lab] = labels.get("procs:" + lab, 0) + 1
         for cause, msg in bad:
-            viols.append({"cause": cause, "msg": msg, "case": {"procs": [a[0], list(a[1]), list(a[2]), a[3], a[4], a[5]]}})
+            viols.append({"cause": cause, "msg": msg, "case": {"procs": [a[0], list(a[1]), list(a[2]), a[3], a[4], a[5]] + list(a[6:])}})
     cov = {"evaluations": len(sc) + len(ps), "distinct_nontrivial": len({repr(a) for a in sc}) + len({repr(a) for a in ps}),
            "rule": "one evaluation = one execution of Process.wait()/wait_procs() in virtual time for one (subject kind, timeout, exit "
                    "instant, EINTR set, sleep overshoot) / (process kinds, exit-instant vector, timeout, callback); exit instants cover "
@@ -314,5 +342,5 @@ def replay(ctx, case):
         bad = judge_wait(arg, r)
         return {"violated": bool(bad), "viols": bad, "trace": r["trace"][-12:], "out": r["out"]}
     a = case["procs"]
-    bad, lab = run_procs((a[0], tuple(a[1]), tuple(a[2]), a[3], a[4], a[5]))
+    bad, lab = run_procs((a[0], tuple(a[1]), tuple(a[2]), a[3], a[4], a[5]) + tuple(a[6:]))
     return {"violated": bool(bad), "viols": bad}
